@@ -47,6 +47,13 @@ def check(ck):
               'descend with their part of the flow), so that a store-built '
               'engine, a move and a division find the dependencies again',
               c16.r16_8_paths, c16.r16_6)
+    from . import c10
+    ck.shared('R05.10', 'a step that left the hierarchy leaves the step '
+              'registry too, whichever collection holds it: the removal in '
+              'Engine._delete_path covers graph steps and sequential '
+              '(flow-less) steps alike - a step created later at the same '
+              'path must not find a stale entry and run twice per phase',
+              c10.r10_4)
 
 
 def _loop_of(x, stop):
